@@ -131,6 +131,14 @@ def call_gs(inst, oriented, zero_indexed, dtype=None, ctx=None):
             GaleShapley(resident_oriented=not oriented, zero_indexed=zero_indexed).scf(pr, ph, c)
         except Exception:  # noqa
             pass
+    if ctx is not None and ctx["rng"].random() < 0.25:
+        # the same rule object is first asked about the same profiles with OTHER capacities
+        try:
+            c0 = np.array([int(x) % 3 + 1 for x in range(len(c))], dtype=c.dtype)
+            if not np.array_equal(c0, c):
+                rule.scf(pr, ph, c0)
+        except Exception:  # noqa
+            pass
     out = rule.scf(pr, ph, c)
     return [[int(a), int(b)] for a, b in out]
 
